@@ -191,3 +191,39 @@ def public_witness(ws, entry_text, scratch, maxlen=5, timeout=180):
     if p.returncode < 0:
         return dict(search="aborted with signal %d (e.g. an unsafe precondition check)" % -p.returncode)
     return None
+
+
+def witness_for_step(ws, harness, prop, seed, scratch, timeout=420):
+    """Public-API witness search for a refuted I/S harness: real automata of the harness's variant and
+    kind (the property's own plan entries plus seeded tangle/infix sets), every public search method,
+    haystacks over alphabet + 2 foreign symbols up to length 5, against the brute-force oracle."""
+    from . import plans, corpus
+    from .corpus import Entry
+    variant = "charwise" if harness.split("::")[0].endswith("cw") or "::cw_" in harness else "bytewise"
+    kinds = ("longest", "first") if "leftmost" in harness else ("standard",)
+    ents = []
+    try:
+        for e in plans.plan_for(prop, "quick", seed).entries:
+            if e.variant == variant and e.kind in kinds and len(e.pats) <= 40:
+                ents.append(e)
+    except SystemExit:
+        pass
+    for kind in kinds:
+        ents += plans._tangle_bw(seed, 24, kind, variant) + (plans._infix_bw(seed, 12, kind) if variant == "bytewise" else [])
+        if variant == "charwise":
+            for n in ("w123", "thai", "a3", "a5", "tokyo"):
+                ents.append(Entry("wit_%s_%s" % (n, kind[:2]), "charwise", kind, corpus.cw_fixed()[n]))
+        else:
+            for n in ("unit", "chain", "hard_lm", "hard_lm2", "find_reset", "bin"):
+                ents.append(Entry("wit_%s_%s" % (n, kind[:2]), "bytewise", kind, corpus.bw_fixed()[n]))
+    seen = set()
+    text = ""
+    for i, e in enumerate(ents):
+        key = (e.kind, tuple(e.pats))
+        if key in seen:
+            continue
+        seen.add(key)
+        c = e.clone("w%d_%s" % (i, e.name))
+        c.emits = ["T1"]
+        text += c.plan()
+    return public_witness(ws, text, scratch, maxlen=5, timeout=timeout)
